@@ -57,11 +57,12 @@ def file_content(gen):
         return by[:20000], layout['fields'], {}
     if world == 'las':
         from worlds import las
-        return las.text(las.gen_model(rng, max_rows=gen.get('frames', 20))).encode('ascii'), [], {}
+        m = las.gen_model(rng, max_rows=gen.get('frames', 20))
+        return las.text(m).encode('ascii'), [], {'model': m}
     if world == 'dat':
         from worlds import dat
         m = dat.gen_model(rng, max_rows=gen.get('frames', 10))
-        return dat.text_of(dat.lines(m), m['trailing_newline']).encode('ascii'), [], {}
+        return dat.text_of(dat.lines(m), m['trailing_newline']).encode('ascii'), [], {'model': m}
     if world == 'foreign':
         from worlds import foreign
         return foreign.content(gen.get('kind', 'random'), gen['seed'], gen.get('size', 300)), [], {}
